@@ -12,7 +12,7 @@ func verifDigits(n int) ([]int, string) {
 	d := make([]int, n)
 	b := make([]byte, n)
 	for i := range d {
-		x := zv.Byte()
+		x := zv.Digit()
 		zv.Assume(x <= 9)
 		d[i] = int(x)
 		b[i] = '0' + x
